@@ -68,6 +68,17 @@ const c13JSAncestor = `{"parser_settings": {"version": "omni.2.1", "file_format_
    "v": {"xpath": "v"},
    "parent_sees": {"xpath": "..", "custom_func": {"name": "javascript_with_context", "args": [{"const": "JSON.parse(_node).rec.v"}]}}}}}}`
 
+// a decl anchored on an ancestor of the record (same node, same ID for every record, content changes), in a stream where
+// one record fails: whatever survives a failed record must not leak into the next one
+const c13Ancestor = `{"parser_settings": {"version": "omni.2.1", "file_format_type": "xml"},
+ "transform_declarations": {"FINAL_OUTPUT": {"xpath": "/root/rec", "object": {
+   "a_parent": {"xpath": "..", "object": {"last_v": {"xpath": "rec[last()]/v"}, "hdr": {"xpath": "hdr"}}},
+   "a_tmpl": {"xpath": "..", "template": "t"},
+   "qty": {"xpath": "qty", "type": "int"},
+   "v": {"xpath": "v"}}},
+   "t": {"object": {"n": {"xpath": "rec[last()]/qty"}}}}}`
+const c13AncestorInput = `<root><hdr>h</hdr><rec><v>one</v><qty>1</qty></rec><rec><v>two</v><qty>bad</qty></rec><rec><v>three</v><qty>3</qty></rec><rec><v>four</v><qty>x</qty></rec><rec><v>five</v><qty>5</qty></rec></root>`
+
 func c13Corpus() ([]*corpusItem, error) {
 	items, err := multiRunCorpus(false)
 	if err != nil {
@@ -77,6 +88,7 @@ func c13Corpus() ([]*corpusItem, error) {
 		{Name: "c13/identical-decls-templates-dynamic", Format: "xml", Schema: []byte(c13Collide), Input: []byte(c13CollideInput)},
 		{Name: "c13/js-on-record", Format: "xml", Schema: []byte(c13JSRecord), Input: []byte(c13JSRecordInput)},
 		{Name: "c13/js-on-ancestor", Format: "xml", Schema: []byte(c13JSAncestor), Input: []byte(c13JSRecordInput)},
+		{Name: "c13/ancestor-anchored-with-failing-records", Format: "xml", Schema: []byte(c13Ancestor), Input: []byte(c13AncestorInput)},
 	}
 	for _, it := range extra {
 		sch, err, p := newSchema(it.Schema)
